@@ -26,9 +26,9 @@ EVAL_KEY = "evaluations"
 DISTINCT_KEY = "cases"
 NSHARDS = {"quick": 8, "thorough": 16}
 TIMEOUT = {"quick": 1200, "thorough": 7200}
-FLOORS = {"quick": {"api_cycles": 250, "cli_runs": 36, "cli:format": 14, "cli:validate": 14, "cli:schema": 4, "distinct:codepoint-classes": 5},
+FLOORS = {"quick": {"api_cycles": 250, "cli_runs": 36, "cli:format": 14, "cli:validate": 14, "cli:schema": 4, "distinct:codepoint-classes": 5, "large_files": 9},
           "thorough": {"api_cycles": 9000, "cli_runs": 700, "cli:format": 300, "cli:validate": 300, "cli:schema": 40,
-                       "distinct:codepoint-classes": 5}}
+                       "distinct:codepoint-classes": 5, "large_files": 12}}
 ASSUMPTIONS = ["the expected CLI exit status and message lines are computed from the public API on the same files",
                "exit status: 0 iff no problem; equal to the number of problems when <= 255; any non-zero status above that"]
 DOMAIN = ["string values without surrogates, the quote character, backslash or CR", "CLI arguments are ASCII; file names without glob characters"]
@@ -222,6 +222,36 @@ def _run(ctx, base):
             res.violation("saved-file-not-loadable", dict(case, options=opts), f"{type(ex).__name__}: {str(ex)[:200]}", None)
         if len(res.samples) < 1 and len(text) < 500:
             res.sample({"part": "api", "text": text})
+    # ------------------------------------------------------------------ (a2) large files
+    # files of 70 kB ... 9 MB whose text is mostly multi-byte characters (so that every internal block boundary of a reader, whatever
+    # its block size, falls inside a character for at least two of three paddings): the file front ends still agree with loads
+    if ctx.shard == 0:
+        sizes = [23_000, 370_000, 1_420_000] if ctx.quick else [23_000, 370_000, 1_420_000, 2_900_000]
+        for nchars in sizes:
+            for pad in (0, 1, 2):
+                text = 'MAP\n  NAME "' + "x" * pad + "\u65e5" * nchars + '"\n  WEB\n    METADATA\n      "wms_title" "' + "\U0001d4b3\u00e9" * 1000 + '"\n    END\n  END\nEND\n'
+                fn = os.path.join(base, f"large_{nchars}_{pad}.map")
+                with open(fn, "w", encoding="utf-8", newline="") as f:
+                    f.write(text)
+                case = {"part": "large-file", "bytes": os.path.getsize(fn), "padding": pad, "text": text[:60] + "..."}
+                res.count("large_files")
+                res.maximum("largest_file_bytes", os.path.getsize(fn))
+                try:
+                    want = core.fp(mappyfile.loads(text))
+                    got_open = core.fp(mappyfile.open(fn))
+                    with open(fn, encoding="utf-8", newline="") as fp:
+                        got_load = core.fp(mappyfile.load(fp))
+                    out_fn = os.path.join(base, "large_out.map")
+                    mappyfile.save(mappyfile.loads(text), out_fn)
+                    got_cycle = core.fp(mappyfile.open(out_fn))
+                    os.remove(out_fn)
+                except Exception as ex:
+                    res.violation("front-end-raises", case, f"{type(ex).__name__}: {str(ex)[:200]}", None)
+                    continue
+                finally:
+                    os.remove(fn)
+                if not (want == got_open == got_load == got_cycle):
+                    res.violation("front-ends-disagree-on-a-large-file", case, {"open": got_open == want, "load": got_load == want, "save-open": got_cycle == want}, None)
     # ------------------------------------------------------------------ (b-d) CLI as a real subprocess
     ncli = ctx.n(40, 800)
     wd = os.path.join(base, f"cli{ctx.shard}")
